@@ -345,4 +345,7 @@ def corpus():
     c("assert-lo-gt-hi", 4, ["i 1 2 0", "i 5 4 1", "q 0 9"])
     # early stop observable: stale ancestors, aggregate_path from below stops at the first unchanged node
     c("dirty-early-stop", 8, ["i %d %d %d" % (k, k, k) for k in range(7)] + ["w 0 50", "a 0", "w 5 60", "a 4", "a 6", "w 6 70", "a 6", "a 5", "A", "q 55 65", "w 6 6", "a 6", "w 0 0", "a 2", "a 0", "A", "q 0 100"])
+    # shrunk replays of self-test mutations (NOTES.md) that were not already prefixes of corpus-demo
+    c("selftest-replace-node-parent-path", 24, ["i 33 43 15", "i 49 68 12", "i 35 61 14", "i 15 80 11", "i 11 11 16", "r 11", "q 70 75", "q 62 68"])
+    c("selftest-left-found-result", 4, ["i 2 2 0", "i 1 1 1", "i 3 3 2", "i 0 3 3", "q 3 3", "p 3", "q 2 3"])
     return cs
